@@ -14,11 +14,14 @@ let canon (fs : (n list option * nat) list) : (n list option * nat) list =
 
 let show_spec_obs (canonical : bool) (o : spec_obs) : string =
   let c fs = if canonical then canon fs else fs in
-  Printf.sprintf "%s f%s tf%d %s r%s rf%s t%s"
+  (* sf: the specfile route (first start writes the file, the next start reads it) decides like the specification itself -
+     by C17_toml_roundtrip the model's answer is "same" whenever the TOML form exists *)
+  Printf.sprintf "%s f%s tf%d %s r%s rf%s t%s sf%s"
     (if o.so_ok then "ok" else "err") (show_filters (c o.so_filters)) (if o.so_text then 1 else 0)
     (if canonical then "d*" else "d" ^ hex_of_ustr o.so_display)
     (if o.so_reparse_ok then "ok" else "err") (show_filters (c o.so_reparse))
     (match o.so_toml with None -> "-" | Some fs -> show_filters (c fs))
+    (match o.so_toml with None -> "-" | Some _ -> "same")
 
 let run_spec_case (toks : string list) : string =
   match toks with
